@@ -156,6 +156,9 @@ def leaf_samples(case, out):
     for tr in [t for t in transitions(case, out) if usable(t) and not N.ambiguous(t, case["f"])]:
         table, per = N.build_table(tr)
         eps = N.bf(tr["start"]["epsilon"])
+        st = tr["start"]
+        if N.finite_entry(st) and max(abs(N.bf(b)) for b in st["position"] + st["momentum"]) < 1e6:
+            res.append((0.0, st, st))          # a step of size 0: the start point's own joint density (slice level = joint - Exp(1))
         for idxs in per:
             for i in sorted({idxs[0], idxs[-1]}) if idxs else []:
                 v = 1 if i > 0 else -1
@@ -205,7 +208,9 @@ def compare(case, out, model):
                             % (j, kd, N.bf(v), N.bf(r)))
     if lm is not None:
         d = case["target"]["d"]
-        tol = Fraction(1, 2 ** 11) if case["f"] == "f32" else Fraction(1, 2 ** 13)
+        # f64 backend on these targets (entries exactly representable): everything is computed in double precision, so a
+        # single-precision detour anywhere (e.g. the start joint squeezed through f32) is far outside the tolerance
+        tol = Fraction(1, 2 ** 11) if case["f"] == "f32" else Fraction(1, 2 ** 36)
         pos = 0
         for (e, prev, leaf) in leaf_samples(case, out):
             vals = [Fraction(lm[pos + 2 * j], lm[pos + 2 * j + 1]) for j in range(2 * d + 1)]
@@ -239,11 +244,25 @@ def leaf_dynamics(case, tr):
     A = [[Fraction(C.f64_bits_to_float(tg["prec"][i * d + j])) for j in range(d)] for i in range(d)]
     table, per = N.build_table(tr)
     eps = Fraction(N.bf(tr["start"]["epsilon"]))
-    tol = Fraction(1, 2 ** 11) if case["f"] == "f32" else Fraction(1, 2 ** 13)
+    tol = Fraction(1, 2 ** 11) if case["f"] == "f32" else Fraction(1, 2 ** 36)     # f64 backend: double precision throughout
 
     def grad(x):      # d/dx (-x^T A x / 2) = -(A + A^T) x / 2
         return [-sum((A[i][j] + A[j][i]) * x[j] for j in range(d)) / 2 for i in range(d)]
+
+    def joint_of(ent):
+        x = [Fraction(N.bf(b)) for b in ent["position"]]
+        p = [Fraction(N.bf(b)) for b in ent["momentum"]]
+        lp = -sum(x[i] * A[i][j] * x[j] for i in range(d) for j in range(d)) / 2
+        ke = sum(t * t for t in p) / 2
+        return lp - ke, 1 + abs(lp) + ke
     for i in sorted(table):
+        if N.finite_entry(table[i]) and math.isfinite(N.bf(table[i]["joint"])) and \
+                max(abs(N.bf(b)) for b in table[i]["position"] + table[i]["momentum"]) < 1e6:
+            jx, jsc = joint_of(table[i])
+            if abs(Fraction(N.bf(table[i]["joint"])) - jx) > tol * jsc * 4:
+                return ("%s: joint log-density %.12g used by the transition, log p(x) - |p|^2/2 at that point is %.12g (%s backend: "
+                        "relative accuracy %.1e expected)" % ("start point" if i == 0 else "trajectory point %d" % i,
+                                                             N.bf(table[i]["joint"]), float(jx), case["f"], float(tol)))
         if i == 0:
             continue
         prev = table[i - 1] if i > 0 else table[i + 1]
